@@ -237,13 +237,27 @@ congruence<Number>::operator&(const congruence<Number> &o) const {
   } else {
     // pre: a and o.a != 0
     Number x = gcd(m_a, o.m_a);
-    if (m_b % x == (o.m_b % x)) {
-      // the part max(b,o.b) needs to be verified. What we really
-      // want is to find b'' such that
-      // 1) b'' % lcm(a,a') == b  % lcm(a,a'), and
-      // 2) b'' % lcm(a,a') == b' % lcm(a,a').
-      // An algorithm for that is provided in Granger'89.
-      return congruence<Number>(lcm(m_a, o.m_a), max(m_b, o.m_b));
+    if ((m_b - o.m_b) % x == 0) {
+      // Find b'' such that b'' = b (mod a) and b'' = b' (mod a'):
+      // b'' = b + a*k where a*k = b'-b (mod a'), i.e.,
+      // k = ((b'-b)/x) * inverse of (a/x) modulo (a'/x).
+      Number a1 = abs(m_a) / x;
+      Number m = abs(o.m_a) / x;
+      Number c = (o.m_b - m_b) / x;
+      // inverse of a1 modulo m (they are coprime) by the extended
+      // Euclidean algorithm
+      Number r0 = m, r1 = a1 % m, t0 = 0, t1 = 1;
+      while (r1 != 0) {
+        Number q = r0 / r1;
+        Number r2 = r0 - q * r1;
+        r0 = r1;
+        r1 = r2;
+        Number t2 = t0 - q * t1;
+        t0 = t1;
+        t1 = t2;
+      }
+      Number k = (c * t0) % m;
+      return congruence<Number>(lcm(m_a, o.m_a), m_b + abs(m_a) * k);
     } else {
       return congruence<Number>::bottom();
     }
@@ -320,30 +334,21 @@ congruence<Number>::operator/(const congruence<Number> &o) const {
     return congruence<Number>::top();
   else {
     /*
+       The division truncates towards zero.
+
+       0Z+b / 0Z+b': exact.
+
        aZ+b / 0Z+b':
-          if b'|a then  (a/b')Z + b/b'
-          else          top
+          if b'|a and b'|b then  (a/b')Z + b/b'  (the division is exact)
+          else                   top
     */
     if (o.m_a == 0) {
-      if (m_a % o.m_b == 0)
-        return congruence<Number>(m_a / o.m_b, m_b / o.m_b);
-      else
-        return congruence<Number>::top();
-    }
-
-    /*
-         0Z+b / a'Z+b':
-            if N>0   (b div N)Z + 0
-            else     0Z + 0
-
-           where N = a'((b-b') div a') + b'
-    */
-    if (m_a == 0) {
-      Number n(o.m_a * (((m_b - o.m_b) / o.m_a) + o.m_b));
-      if (n > 0) {
-        return congruence<Number>(m_b / n, Number(0));
+      if (m_a == 0) {
+        return congruence<Number>(m_b / o.m_b);
+      } else if (m_a % o.m_b == 0 && m_b % o.m_b == 0) {
+        return congruence<Number>(abs(m_a / o.m_b), m_b / o.m_b);
       } else {
-        return congruence<Number>(Number(0), Number(0));
+        return congruence<Number>::top();
       }
     }
 
@@ -366,36 +371,28 @@ congruence<Number>::operator%(const congruence<Number> &o) const {
     return congruence<Number>::top();
   else {
     /*
-         aZ+b mod 0Z+b':
-             if b'|a then  (a/b')Z + b/b'
-             else          top
+         The remainder r = x - y*(x/y) has the sign of the dividend x.
+         Since y divides x - r, r is congruent to x modulo any divisor
+         of y.
+
+         0Z+b mod 0Z+b': exact.
+
+         aZ+b mod 0Z+b':  r = b (mod gcd(a,b')); if b'|a and b'|b then r = 0
     */
     if (o.m_a == 0) {
-      if (m_a % o.m_b == 0) {
-        return congruence<Number>(Number(0), m_b % o.m_b);
+      if (m_a == 0) {
+        return congruence<Number>(m_b % o.m_b);
+      } else if (m_a % o.m_b == 0 && m_b % o.m_b == 0) {
+        return congruence<Number>(Number(0));
       } else {
         return congruence<Number>(gcd(m_a, o.m_b), m_b);
       }
     }
     /*
-          0Z+b mod a'Z+b':
-           if N<=0           then 0Z+b
-           if (b div N) == 1 then gcd(b',a')Z + b
-           if (b div N) >= 2 then N(b div N)Z  + b
-
-         where N = a'((b-b') div a') + b'
+          0Z+b mod a'Z+b':  every divisor is a multiple of gcd(a',b')
     */
     if (m_a == 0) {
-      Number n(o.m_a * (((m_b - o.m_b) / o.m_a) + o.m_b));
-      if (n <= 0) {
-        return congruence<Number>(m_a, m_b);
-      } else if (m_b == n) {
-        return congruence<Number>(gcd(o.m_b, o.m_a), m_b);
-      } else if ((m_b / n) >= 2) {
-        return congruence<Number>(m_b, m_b);
-      } else {
-        CRAB_ERROR("unreachable");
-      }
+      return congruence<Number>(gcd(o.m_a, o.m_b), m_b);
     }
 
     /*
